@@ -377,7 +377,9 @@ fn exec_batch(w: &mut World, batch: &[Op], salt: u64, ctx: &mut CaseCtx) -> Resu
                 ctx.class("user_dictionary_file_edited");
             }
             Op::Config { idx } => {
-                w.config_idx = *idx as usize % CONFIGS.len();
+                note_config_change(w, *idx as usize % CONFIGS.len());
+                note_config_change(w, *idx as usize % CONFIGS.len());
+    w.config_idx = *idx as usize % CONFIGS.len();
                 let settings = settings_for(&w.sb, w.config_idx);
                 w.s.settings = settings.clone();
                 // the reference is a *fresh* server that only ever saw the final settings
@@ -568,6 +570,21 @@ fn check_publications(w: &mut World, uris: &[String]) -> Result<Result<(), Strin
         }
     }
     Ok(Ok(()))
+}
+
+/// A configuration change that alters how documents are tokenised (isolateEnglish) changes the
+/// neighbourhood of lints: a lint ignored before it may legitimately count as another lint
+/// afterwards (C14 defines the identity by the surrounding tokens), so from then on the ignored
+/// lints are only bounded, as after a text change.
+fn note_config_change(w: &mut World, new_idx: usize) {
+    let parses_differently = |i: usize| CONFIGS[i].contains("isolateEnglish");
+    if parses_differently(w.config_idx) != parses_differently(new_idx) {
+        for d in w.docs.iter_mut() {
+            if !d.ignored.is_empty() {
+                d.text_changed_since_ignore = true;
+            }
+        }
+    }
 }
 
 pub fn test_history(h: &History, ctx: &mut CaseCtx) -> Result<(), String> {
